@@ -399,11 +399,13 @@ impl Compiler {
         };
 
         // Get the target loop's try_depth
-        let target_try_depth = self
-            .loop_stack
-            .get(loop_idx)
-            .map(|ctx| ctx.try_depth as u8)
-            .unwrap_or(0);
+        let target_try_depth = u8::try_from(
+            self.loop_stack
+                .get(loop_idx)
+                .map(|ctx| ctx.try_depth)
+                .unwrap_or(0),
+        )
+        .map_err(|_| JsError::internal_error("Too many nested try blocks (max 255)"))?;
 
         // Emit IteratorClose before break if this is a for-of loop
         // Also need to close iterators for any enclosing for-of loops we're breaking out of
@@ -449,11 +451,13 @@ impl Compiler {
         };
 
         // Get the target loop's try_depth
-        let target_try_depth = self
-            .loop_stack
-            .get(loop_idx)
-            .map(|ctx| ctx.try_depth)
-            .unwrap_or(0) as u8;
+        let target_try_depth = u8::try_from(
+            self.loop_stack
+                .get(loop_idx)
+                .map(|ctx| ctx.try_depth)
+                .unwrap_or(0),
+        )
+        .map_err(|_| JsError::internal_error("Too many nested try blocks (max 255)"))?;
         // A label wraps its loop: the continue target belongs to the loop's own context,
         // which may sit inside scopes the label's context does not know about
         let scope_idx = self
